@@ -107,4 +107,346 @@ theorem decimal_consts :
 theorem dom_is_min_max (d : Dec) :
     (Dec.MIN.coeff ≤ d.coeff ∧ d.coeff ≤ Dec.MAX.coeff ∧ d.nfrac ≤ Dec.DELTA.nfrac) ↔ Dom d := Kernels.dom_is_min_max d
 
+/-! ### algebraic laws
+Laws of the parser, proved on the reference grammar `Spec.parseSpec` and transferred with `from_str_spec` (so: for every literal
+shorter than 2^56 bytes, every profile).  `from_str_spec` fixes the result up to the *kind* of a non-`Empty` error, hence laws that
+are transferred say "same value / both rejected / both `Empty`" (`SameVerdict`); `from_str_plus` is proved on the model and is a plain
+equation. -/
+
+/-! #### transfer: the model's verdict is a function of the reference parser's -/
+theorem from_str_ok_iff (prof : Profile) (s : List Nat) (hb : ∀ c ∈ s, c < 256) (hlen : s.length < 2 ^ 56) (d : Dec) :
+    fromStr prof s = .ok (.ok d) ↔ Spec.parseSpec s = .ok d.coeff d.nfrac := by
+  have h := from_str_spec prof s hb hlen
+  cases hp : Spec.parseSpec s <;> cases hr : fromStr prof s with
+  | panic k => rw [hp, hr] at h; exact absurd h (by simp)
+  | ok r =>
+    cases r with
+    | error e => rw [hp, hr] at h; simp_all
+    | ok x =>
+      rw [hp, hr] at h
+      first
+        | (simp at h; subst h; cases d; simp [Dec.mk.injEq])
+        | (simp at h)
+
+theorem from_str_err_iff (prof : Profile) (s : List Nat) (hb : ∀ c ∈ s, c < 256) (hlen : s.length < 2 ^ 56) :
+    (∃ e, fromStr prof s = .ok (.error e)) ↔ (Spec.parseSpec s = .bad ∨ Spec.parseSpec s = .empty) := by
+  have h := from_str_spec prof s hb hlen
+  cases hp : Spec.parseSpec s <;> cases hr : fromStr prof s with
+  | panic k => rw [hp, hr] at h; exact absurd h (by simp)
+  | ok r =>
+    cases r with
+    | error e => rw [hp, hr] at h; simp_all
+    | ok x => rw [hp, hr] at h; simp_all
+
+theorem from_str_empty_iff (prof : Profile) (s : List Nat) (hb : ∀ c ∈ s, c < 256) (hlen : s.length < 2 ^ 56) :
+    fromStr prof s = .ok (.error .empty) ↔ Spec.parseSpec s = .empty := by
+  have h := from_str_spec prof s hb hlen
+  cases hp : Spec.parseSpec s <;> cases hr : fromStr prof s with
+  | panic k => rw [hp, hr] at h; exact absurd h (by simp)
+  | ok r =>
+    cases r with
+    | error e => rw [hp, hr] at h; simp_all
+    | ok x => rw [hp, hr] at h; simp_all
+
+/-- same accepted value, rejected together, `Empty` together -/
+def SameVerdict (prof : Profile) (s t : List Nat) : Prop :=
+  (∀ d, fromStr prof s = .ok (.ok d) ↔ fromStr prof t = .ok (.ok d)) ∧
+  ((∃ e, fromStr prof s = .ok (.error e)) ↔ (∃ e, fromStr prof t = .ok (.error e))) ∧
+  (fromStr prof s = .ok (.error .empty) ↔ fromStr prof t = .ok (.error .empty))
+
+theorem sameVerdict_of_parseSpec_eq (prof : Profile) (s t : List Nat)
+    (hbs : ∀ c ∈ s, c < 256) (hls : s.length < 2 ^ 56) (hbt : ∀ c ∈ t, c < 256) (hlt : t.length < 2 ^ 56)
+    (h : Spec.parseSpec s = Spec.parseSpec t) : SameVerdict prof s t := by
+  refine ⟨fun d => ?_, ?_, ?_⟩
+  · rw [from_str_ok_iff prof s hbs hls, from_str_ok_iff prof t hbt hlt, h]
+  · rw [from_str_err_iff prof s hbs hls, from_str_err_iff prof t hbt hlt, h]
+  · rw [from_str_empty_iff prof s hbs hls, from_str_empty_iff prof t hbt hlt, h]
+
+/-! #### reference-parser lemmas -/
+def negRes : Spec.ParseRes → Spec.ParseRes
+  | .ok c p => .ok (-c) p
+  | r => r
+
+theorem optSign_nosign (c : Nat) (s : List Nat) (h45 : c ≠ 45) (h43 : c ≠ 43) :
+    Spec.optSign (c :: s) = (false, c :: s) := by
+  unfold Spec.optSign
+  split
+  · simp_all
+  · simp_all
+  · rfl
+
+theorem parseSpec_empty_iff (s : List Nat) : Spec.parseSpec s = .empty ↔ s = [] := by
+  constructor
+  · intro h
+    cases s with
+    | nil => rfl
+    | cons c cs =>
+      exfalso
+      unfold Spec.parseSpec at h
+      simp only [List.isEmpty_cons] at h
+      repeat' split at h
+      all_goals simp_all
+  · intro h; subst h; rfl
+
+theorem parseSpec_minus (c : Nat) (s : List Nat) (h45 : c ≠ 45) (h43 : c ≠ 43) :
+    Spec.parseSpec (45 :: c :: s) = negRes (Spec.parseSpec (c :: s)) := by
+  have h1 : Spec.optSign (45 :: c :: s) = (true, c :: s) := rfl
+  unfold Spec.parseSpec
+  rw [h1, optSign_nosign c s h45 h43]
+  simp only [List.isEmpty_cons]
+  repeat' split
+  all_goals simp_all [negRes]
+
+theorem optSign_digit (c : Nat) (s : List Nat) (hd : Spec.isDig c = true) :
+    Spec.optSign (c :: s) = (false, c :: s) := by
+  unfold Spec.optSign
+  split
+  · simp [Spec.isDig] at hd; simp_all
+  · simp [Spec.isDig] at hd; simp_all
+  · rfl
+
+theorem digitsVal_zero_cons (ds : List Nat) : Spec.digitsVal (48 :: ds) = Spec.digitsVal ds := by
+  simp [Spec.digitsVal]
+
+theorem parseSpec_leading_zero (d : Nat) (s : List Nat) (hd : Spec.isDig d = true) :
+    Spec.parseSpec (48 :: d :: s) = Spec.parseSpec (d :: s) := by
+  have h0 : Spec.isDig 48 = true := by decide
+  unfold Spec.parseSpec
+  rw [optSign_digit 48 _ h0, optSign_digit d s hd]
+  have hs : Spec.spanDigits (48 :: d :: s) = (48 :: (Spec.spanDigits (d :: s)).1, (Spec.spanDigits (d :: s)).2) := by
+    conv => lhs; unfold Spec.spanDigits
+    simp [h0]
+  have hs2 : Spec.spanDigits (d :: s) = (d :: (Spec.spanDigits s).1, (Spec.spanDigits s).2) := by
+    conv => lhs; unfold Spec.spanDigits
+    simp [hd]
+  simp only [List.isEmpty_cons, hs, hs2, List.cons_append, digitsVal_zero_cons]
+
+/-- `e` ↦ `E`, every other byte unchanged -/
+def upperE (c : Nat) : Nat := if c = 101 then 69 else c
+
+/-- the exponent part and the final decision of `Spec.parseSpec`, given sign, integer digits, fraction digits, rest -/
+def expSpec (neg : Bool) (ip fp s : List Nat) : Spec.ParseRes :=
+  if ip.isEmpty ∧ fp.isEmpty then .bad else
+  let expPart : Option (Int × List Nat) :=
+    match s with
+    | c :: r =>
+      if c = 101 ∨ c = 69 then
+        let (eneg, r) := Spec.optSign r
+        let (ed, r') := Spec.spanDigits r
+        if ed.isEmpty then none else some ((if eneg then -(Spec.digitsVal ed : Int) else Spec.digitsVal ed), r')
+      else some (0, c :: r)
+    | [] => some (0, [])
+  match expPart with
+  | none => .bad
+  | some (e, rest) =>
+    if !rest.isEmpty then .bad else
+    let D : Nat := Spec.digitsVal (ip ++ fp)
+    let f : Int := fp.length
+    let sgn (c : Nat) : Int := if neg then -(c : Int) else c
+    if e ≥ f then
+      if D = 0 then .ok 0 0
+      else if e - f > 38 then .bad
+      else
+        let C := D * 10 ^ (e - f).toNat
+        if (C : Int) ≤ (2 : Int) ^ 127 - 1 then .ok (sgn C) 0 else .bad
+    else
+      let nf := f - e
+      if nf > 18 then .bad
+      else if (D : Int) ≤ (2 : Int) ^ 127 - 1 then .ok (sgn D) nf.toNat else .bad
+
+def fracSpec (neg : Bool) (ip s : List Nat) : Spec.ParseRes :=
+  let (fp, s, _) : List Nat × List Nat × Bool :=
+    match s with
+    | 46 :: r => let (f, r') := Spec.spanDigits r; (f, r', true)
+    | _ => ([], s, false)
+  expSpec neg ip fp s
+
+theorem fracSpec_point (neg : Bool) (ip r : List Nat) :
+    fracSpec neg ip (46 :: r) = expSpec neg ip (Spec.spanDigits r).1 (Spec.spanDigits r).2 := rfl
+
+theorem fracSpec_nopoint (neg : Bool) (ip : List Nat) (c : Nat) (r : List Nat) (h : c ≠ 46) :
+    fracSpec neg ip (c :: r) = expSpec neg ip [] (c :: r) := by
+  unfold fracSpec
+  split
+  rename_i heq
+  split at heq
+  · simp_all
+  · cases heq; rfl
+
+theorem parseSpec_stages (s : List Nat) :
+    Spec.parseSpec s =
+      if s.isEmpty then .empty
+      else fracSpec (Spec.optSign s).1 (Spec.spanDigits (Spec.optSign s).2).1 (Spec.spanDigits (Spec.optSign s).2).2 := rfl
+
+theorem isDig_upperE (c : Nat) : Spec.isDig (upperE c) = Spec.isDig c := by
+  unfold upperE; split
+  · subst_vars; decide
+  · rfl
+
+theorem upperE_of_isDig (c : Nat) (h : Spec.isDig c = true) : upperE c = c := by
+  unfold upperE; split
+  · subst_vars; exact absurd h (by decide)
+  · rfl
+
+theorem spanDigits_upperE (s : List Nat) :
+    Spec.spanDigits (s.map upperE) = ((Spec.spanDigits s).1, (Spec.spanDigits s).2.map upperE) := by
+  induction s with
+  | nil => rfl
+  | cons c cs ih =>
+    simp only [List.map_cons]
+    unfold Spec.spanDigits
+    rw [isDig_upperE]
+    by_cases h : Spec.isDig c = true
+    · simp [h, ih, upperE_of_isDig c h]
+    · simp [h]
+
+theorem optSign_upperE (s : List Nat) :
+    Spec.optSign (s.map upperE) = ((Spec.optSign s).1, (Spec.optSign s).2.map upperE) := by
+  cases s with
+  | nil => rfl
+  | cons c cs =>
+    by_cases h45 : c = 45
+    · subst h45; rfl
+    · by_cases h43 : c = 43
+      · subst h43; rfl
+      · have h1 : upperE c ≠ 45 := by unfold upperE; split <;> omega
+        have h2 : upperE c ≠ 43 := by unfold upperE; split <;> omega
+        simp only [List.map_cons]
+        rw [optSign_nosign _ _ h1 h2, optSign_nosign _ _ h45 h43]
+        rfl
+
+theorem expSpec_upperE (neg : Bool) (ip fp s : List Nat) :
+    expSpec neg ip fp (s.map upperE) = expSpec neg ip fp s := by
+  cases s with
+  | nil => rfl
+  | cons c r =>
+    have hc : (upperE c = 101 ∨ upperE c = 69) ↔ (c = 101 ∨ c = 69) := by unfold upperE; split <;> omega
+    unfold expSpec
+    simp only [List.map_cons, hc, optSign_upperE, spanDigits_upperE]
+    by_cases h : c = 101 ∨ c = 69
+    · by_cases he : (Spec.spanDigits (Spec.optSign r).2).1 = []
+      · simp [h, he]
+      · simp [h, he]
+    · simp [h]
+
+theorem fracSpec_upperE (neg : Bool) (ip s : List Nat) :
+    fracSpec neg ip (s.map upperE) = fracSpec neg ip s := by
+  cases s with
+  | nil => rfl
+  | cons c r =>
+    by_cases h : c = 46
+    · subst h
+      show fracSpec neg ip (46 :: r.map upperE) = _
+      simp only [fracSpec_point, spanDigits_upperE, expSpec_upperE]
+    · have h1 : upperE c ≠ 46 := by unfold upperE; split <;> omega
+      simp only [List.map_cons]
+      rw [fracSpec_nopoint _ _ _ _ h1, fracSpec_nopoint _ _ _ _ h, ← List.map_cons, expSpec_upperE]
+
+theorem parseSpec_upperE (s : List Nat) : Spec.parseSpec (s.map upperE) = Spec.parseSpec s := by
+  rw [parseSpec_stages, parseSpec_stages]
+  simp only [optSign_upperE, spanDigits_upperE, fracSpec_upperE, List.isEmpty_map]
+
+/-! #### the laws -/
+
+/-- law 1: an explicit `+` in front of a non-empty literal that does not itself start with a sign is irrelevant — a plain
+    equation of the model (same value, same error kind, any length).  False for the empty literal and for a signed one (below). -/
+theorem from_str_plus (prof : Profile) (c : Nat) (s : List Nat) (h45 : c ≠ 45) (h43 : c ≠ 43) :
+    fromStr prof (43 :: c :: s) = fromStr prof (c :: s) := by
+  have : takeSign (43 :: c :: s) = takeSign (c :: s) := by simp [takeSign, h45, h43]
+  unfold fromStr strToDec
+  rw [this]
+
+example : fromStr Profile.dev [43, 49, 46, 53] = fromStr Profile.dev [49, 46, 53] := by decide   -- "+1.5" / "1.5"
+/-- counter-examples of the unrestricted statement: "+" is `Invalid` but "" is `Empty`; "+-1" is rejected but "-1" is accepted -/
+example : fromStr Profile.dev [43] ≠ fromStr Profile.dev [] := by decide
+example : fromStr Profile.dev [43, 45, 49] ≠ fromStr Profile.dev [45, 49] := by decide
+
+/-- law 2 (values): a `-` in front of an unsigned literal negates the coefficient and keeps the fractional digits — and only so -/
+theorem from_str_minus (prof : Profile) (c : Nat) (s : List Nat) (h45 : c ≠ 45) (h43 : c ≠ 43)
+    (hb : ∀ x ∈ 45 :: c :: s, x < 256) (hlen : (45 :: c :: s).length < 2 ^ 56) (d : Dec) :
+    fromStr prof (45 :: c :: s) = .ok (.ok ⟨-d.coeff, d.nfrac⟩) ↔ fromStr prof (c :: s) = .ok (.ok d) := by
+  have hb' : ∀ x ∈ c :: s, x < 256 := fun x hx => hb x (List.mem_cons_of_mem _ hx)
+  have hlen' : (c :: s).length < 2 ^ 56 := by simp only [List.length_cons] at hlen ⊢; omega
+  rw [from_str_ok_iff prof _ hb hlen, from_str_ok_iff prof _ hb' hlen', parseSpec_minus c s h45 h43]
+  cases Spec.parseSpec (c :: s) <;> simp [negRes]
+
+/-- law 2 (direction asked for) -/
+theorem from_str_minus_ok (prof : Profile) (c : Nat) (s : List Nat) (h45 : c ≠ 45) (h43 : c ≠ 43)
+    (hb : ∀ x ∈ 45 :: c :: s, x < 256) (hlen : (45 :: c :: s).length < 2 ^ 56) (d : Dec)
+    (h : fromStr prof (c :: s) = .ok (.ok d)) : fromStr prof (45 :: c :: s) = .ok (.ok ⟨-d.coeff, d.nfrac⟩) :=
+  (from_str_minus prof c s h45 h43 hb hlen d).mpr h
+
+/-- law 2 (errors): rejected with `-` exactly when rejected without, and never as `Empty`.  (The *kind* of a non-`Empty` error is
+    not fixed by the grammar, so it is not part of a law derived from `from_str_spec`.) -/
+theorem from_str_minus_err (prof : Profile) (c : Nat) (s : List Nat) (h45 : c ≠ 45) (h43 : c ≠ 43)
+    (hb : ∀ x ∈ 45 :: c :: s, x < 256) (hlen : (45 :: c :: s).length < 2 ^ 56) :
+    ((∃ e, fromStr prof (45 :: c :: s) = .ok (.error e)) ↔ (∃ e, fromStr prof (c :: s) = .ok (.error e))) ∧
+    fromStr prof (45 :: c :: s) ≠ .ok (.error .empty) ∧ fromStr prof (c :: s) ≠ .ok (.error .empty) := by
+  have hb' : ∀ x ∈ c :: s, x < 256 := fun x hx => hb x (List.mem_cons_of_mem _ hx)
+  have hlen' : (c :: s).length < 2 ^ 56 := by simp only [List.length_cons] at hlen ⊢; omega
+  refine ⟨?_, ?_, ?_⟩
+  · rw [from_str_err_iff prof _ hb hlen, from_str_err_iff prof _ hb' hlen', parseSpec_minus c s h45 h43]
+    cases Spec.parseSpec (c :: s) <;> simp [negRes]
+  · rw [Ne, from_str_empty_iff prof _ hb hlen, parseSpec_empty_iff]; simp
+  · rw [Ne, from_str_empty_iff prof _ hb' hlen', parseSpec_empty_iff]; simp
+
+example : fromStr Profile.dev [49, 46, 53] = .ok (.ok ⟨15, 1⟩) ∧ fromStr Profile.dev [45, 49, 46, 53] = .ok (.ok ⟨-15, 1⟩) := by
+  decide   -- "1.5" / "-1.5"
+/-- on a sample the error kind is the same too ("1e" / "-1e": `Invalid`) -/
+example : fromStr Profile.dev [49, 101] = .ok (.error .invalid) ∧ fromStr Profile.dev [45, 49, 101] = .ok (.error .invalid) := by
+  decide
+/-- counter-example for a literal that already has a sign: "-1" is −1 but "--1" is not 1 -/
+example : fromStr Profile.dev [45, 49] = .ok (.ok ⟨-1, 0⟩) ∧ fromStr Profile.dev [45, 45, 49] ≠ .ok (.ok ⟨1, 0⟩) := by decide
+
+/-- law 3: the exponent marker is case-insensitive — replacing every `e` of a literal by `E` changes nothing -/
+theorem from_str_exp_marker_case (prof : Profile) (s : List Nat) (hb : ∀ c ∈ s, c < 256) (hlen : s.length < 2 ^ 56) :
+    SameVerdict prof (s.map upperE) s := by
+  apply sameVerdict_of_parseSpec_eq prof _ _ _ _ hb hlen (parseSpec_upperE s)
+  · intro c hc
+    rw [List.mem_map] at hc
+    obtain ⟨a, ha, rfl⟩ := hc
+    have := hb a ha
+    unfold upperE; split <;> omega
+  · rw [List.length_map]; exact hlen
+
+/-- law 3 for a literal with exactly one `e` -/
+theorem from_str_exp_marker_case_one (prof : Profile) (pre post : List Nat)
+    (hpre : 101 ∉ pre) (hpost : 101 ∉ post)
+    (hb : ∀ c ∈ pre ++ 101 :: post, c < 256) (hlen : (pre ++ 101 :: post).length < 2 ^ 56) :
+    SameVerdict prof (pre ++ 69 :: post) (pre ++ 101 :: post) := by
+  have hid : ∀ l : List Nat, 101 ∉ l → l.map upperE = l := by
+    intro l hl
+    induction l with
+    | nil => rfl
+    | cons a l ih =>
+      simp only [List.mem_cons, not_or] at hl
+      have ha : upperE a = a := by unfold upperE; split <;> omega
+      rw [List.map_cons, ha, ih hl.2]
+  have h := from_str_exp_marker_case prof (pre ++ 101 :: post) hb hlen
+  rw [List.map_append, List.map_cons, hid pre hpre, hid post hpost] at h
+  exact h
+
+example : fromStr Profile.dev [49, 46, 53, 69, 45, 50] = .ok (.ok ⟨15, 3⟩) ∧
+    fromStr Profile.dev [49, 46, 53, 101, 45, 50] = .ok (.ok ⟨15, 3⟩) := by decide   -- "1.5E-2" / "1.5e-2"
+
+/-- law 4: a zero in front of a digit is irrelevant -/
+theorem from_str_leading_zero (prof : Profile) (d : Nat) (s : List Nat) (hd : Spec.isDig d = true)
+    (hb : ∀ x ∈ 48 :: d :: s, x < 256) (hlen : (48 :: d :: s).length < 2 ^ 56) :
+    SameVerdict prof (48 :: d :: s) (d :: s) := by
+  have hb' : ∀ x ∈ d :: s, x < 256 := fun x hx => hb x (List.mem_cons_of_mem _ hx)
+  have hlen' : (d :: s).length < 2 ^ 56 := by simp only [List.length_cons] at hlen ⊢; omega
+  exact sameVerdict_of_parseSpec_eq prof _ _ hb hlen hb' hlen' (parseSpec_leading_zero d s hd)
+
+example : fromStr Profile.dev [48, 55, 46, 50] = fromStr Profile.dev [55, 46, 50] := by decide   -- "07.2" / "7.2"
+/-- a zero in front of a non-digit does matter: "0.5" is accepted, ".5" too, but "0e1" is 0 while "e1" is rejected -/
+example : fromStr Profile.dev [48, 101, 49] = .ok (.ok ⟨0, 0⟩) ∧ fromStr Profile.dev [101, 49] = .ok (.error .invalid) := by decide
+
+/-- law 5: the empty string is the only input with error kind `Empty` -/
+theorem from_str_empty_only (prof : Profile) (s : List Nat) (hb : ∀ c ∈ s, c < 256) (hlen : s.length < 2 ^ 56) :
+    fromStr prof s = .ok (.error .empty) ↔ s = [] := by
+  rw [from_str_empty_iff prof s hb hlen, parseSpec_empty_iff]
+
+example : fromStr Profile.dev [] = .ok (.error .empty) ∧ fromStr Profile.dev [43] = .ok (.error .invalid) ∧
+    fromStr Profile.dev [32] = .ok (.error .invalid) := by decide
+
 end Fpdec.Props.C06
